@@ -50,6 +50,11 @@ pub fn run(o: &Opts, deck: &str) -> String {
         });
         out.line(&format!("hist {} {} | {}", pk, pb, r.unwrap_or("P".into())));
     }
+    // the bucket of every equity value a river can have: wins / decided for every decided <= 990 (one line per denominator)
+    for n in 1..=990u32 {
+        let r = catch(|| (0..=n).map(|w| u64::from(Abstraction::from(w as f32 / n as f32)).to_string()).collect::<Vec<_>>().join(","));
+        out.line(&format!("qt {} | {}", n, r.unwrap_or("P".into())));
+    }
     let lines = out.finish();
     format!("{{\"lines\":{}}}", lines)
 }
